@@ -363,18 +363,8 @@ Print Assumptions C12_missing_once_src.
 
 (* ---------- tie to the source: regenerated tables (gen/c12_links.py) ---------- *)
 
-(* the order of the tests in DocutilsRenderer.render_link is the order modelled in [render_link] *)
-Example C12_gen_dispatch_is_modelled : gen_dispatch =
-  [([], [114; 101; 110; 100; 101; 114; 95; 108; 105; 110; 107; 95; 117; 114; 108]);
-   ([99; 108; 97; 115; 115; 124; 101; 120; 116; 101; 114; 110; 97; 108], [114; 101; 110; 100; 101; 114; 95; 108; 105; 110; 107; 95; 117; 114; 108]);
-   ([35], [114; 101; 110; 100; 101; 114; 95; 108; 105; 110; 107; 95; 97; 110; 99; 104; 111; 114]);
-   ([], [114; 101; 110; 100; 101; 114; 95; 108; 105; 110; 107; 95; 117; 114; 108]);
-   ([105; 110; 118], [114; 101; 110; 100; 101; 114; 95; 108; 105; 110; 107; 95; 105; 110; 118; 101; 110; 116; 111; 114; 121]);
-   ([112; 97; 116; 104], [114; 101; 110; 100; 101; 114; 95; 108; 105; 110; 107; 95; 112; 97; 116; 104]);
-   ([112; 114; 111; 106; 101; 99; 116], [114; 101; 110; 100; 101; 114; 95; 108; 105; 110; 107; 95; 112; 114; 111; 106; 101; 99; 116]);
-   ([97; 117; 116; 111], [114; 101; 110; 100; 101; 114; 95; 108; 105; 110; 107; 95; 117; 114; 108]);
-   ([], [114; 101; 110; 100; 101; 114; 95; 108; 105; 110; 107; 95; 117; 110; 107; 110; 111; 119; 110])].
-Proof. reflexivity. Qed.
+(* (the order of the tests of DocutilsRenderer.render_link is no longer compared as a table: render_link is
+   regenerated from the source and proved equal to the model above, up to the order of exclusive tests) *)
 
 (* REGEX_SCHEME is the expression modelled by [scheme_of] *)
 Example C12_gen_regex_is_modelled : gen_regex_scheme = [94; 40; 91; 97; 45; 122; 65; 45; 90; 93; 91; 97; 45; 122; 65; 45; 90; 48; 45; 57; 43; 46; 45; 93; 42; 41; 58].
